@@ -398,6 +398,10 @@ def main(argv=None):
     print("%s %s: states=%d transitions=%d traces=%d nontrivial=%d outcomes=%d undecided=%d violations=%d known=%d wall=%.1fs"
           % (pid, tier, agg["states"], agg["transitions"], agg["traces"], agg["nontrivial"], len(outcomes),
              agg["undecided"], len(new), len(known_hit), time.time() - t0))
+    if agg["undecided"] * 4 > max(1, agg["traces"]):
+        # not a verdict about the library: the check was silent but decided less than it is built to (see DESIGN 10.8)
+        print("NOTE property=%s %d of %d executions undecided: this tree consumes randomness in a way the checker's RNG facade / structure "
+              "recognition does not model; the run is not exhaustive and coverage is reduced" % (pid, agg["undecided"], agg["traces"]))
     return 1 if new else 0
 
 
